@@ -23,3 +23,15 @@ Example C03_nonvacuous :
      [CbMessage 7 2 100; Tx 2 (PPubcomp 7)]; [Tx 2 (PPubcomp 7)]; [CbMessage 8 1 101]]
   /\ c03_ok c [[Inp (IPubrel 7); CbMessage 7 2 100; CbMessage 7 2 100]] = false.
 Proof. vm_compute. split; reflexivity. Qed.
+
+(* ------------------------------------------------------------------------------------------
+   The same property on the second-generation session model (coq/theories/Session2): the client's
+   output queue and a transport that may refuse writes are modelled; events distinguish a packet
+   HANDED to the connection from a packet WRITTEN; reconnect() drops what is still queued. *)
+From PahoV Require Import Session2.Model Session2.Check Session2.Statements Session2.C03Proofs.
+
+(* the receiver refinement with replies that may be deferred: replies are handed to the queue in the operation that processes the inbound packet, in the abstract receiver's order *)
+Theorem C03_with_blocking_transport : forall c ops,
+  c03_ok c (optrace c ops) = true.
+Proof. exact c03_proved. Qed.
+Print Assumptions C03_with_blocking_transport.
